@@ -20,7 +20,8 @@ def _stream_trees(c, n, model):
     import penman
     roles, concepts = (AMR_ROLES, AMR_CONCEPTS) if model == 'amr' else (MINI_ROLES, MINI_CONCEPTS)
     if model in ('default', 'noop'):
-        roles = roles + [':foo', ':bar-baz']
+        # no role table: a role ending in -of is an inverted role, and inverting it again would write an over-inverted one (O12)
+        roles = [r for r in roles if not r.endswith('-of')] + [':foo', ':bar-baz']
     out = []
     for i in range(n):
         cfg = gen.TreeCfg(wellformed=True, roles=roles, concepts=concepts, max_nodes=6, max_depth=4, p_invert=0.25,
@@ -59,7 +60,10 @@ def check_C20(c):
     c.mc('MC_CliOpts', _q(c, 'MC_CliOpts_q.cfg', 'MC_CliOpts_t.cfg'), workers=16, heap='10g')
     plans = _export(c, 'MC_CliOpts', 'MC_CliOptsX.cfg', 'plans')
     # every plan exported; a seeded sample is replayed
-    sample = c.rng.sample(plans, min(len(plans), _q(c, 450, 8000)))
+    sample = c.rng.sample(plans, min(len(plans), _q(c, 300, 8000)))
+    # every option value of the full value space alone and every pair of option values (Cli!NearDefault): all replayed
+    near = _export(c, 'MC_CliOpts', 'MC_CliOptsN.cfg', 'plans-near-default')
+    sample = near + sample
     # make sure the option interactions named in the property are present
     must = [p for p in plans if '--reconfigure' in p['args'] and any(a in p['args'] for a in ('--amr', '--noop', '--model'))][:40]
     must += [p for p in plans if '--reify-edges' in p['args'] and '--reify-attributes' in p['args'] and '--amr' in p['args'] and p['idempotent']][:40]
@@ -93,13 +97,14 @@ def check_C20(c):
     traces = pmake(jobs, procs=12, chunksize=8)
     c.judge('J_Cli', traces, 'cli', nontrivial=lambda t: len(t['in_graphs']) >= 1 and len(t['plan']['args']) >= 1)
     c.rule = ('option sets enumerated by TLC (MC_CliOpts: model x 5 normalisation switches x reconfigure key x rearrange key list x '
-              'make-variables x indent x compact x triples x check), a seeded sample of %d replayed plus the interactions named in the '
+              'make-variables x indent x compact x triples x check), every option set within two option values of the empty one over the full '
+              'value space and a seeded sample of the product space (%d replayed together) plus the interactions named in the '
               'property; inputs: streams of 0-3 random well-formed graphs with metadata per input over the model inventory, 1-2 files '
               'or stdin, separators blank line / newline / space; 15%% of the runs contain two layouts of one graph that differ only in '
               'where nodes are closed; for these and 8%% of the others the reference pipeline runs in one fresh interpreter per graph; 4%% of '
               'the tool runs through a real subprocess; non-trivial = at least one graph and '
               'one option' % len(sample))
-    c.bounds = {'plans_exported': len(plans), 'plans_replayed': len(sample) + len(must)}
+    c.bounds = {'plans_exported': len(plans) + len(near), 'plans_near_default_all_replayed': len(near), 'plans_replayed': len(sample) + len(must)}
     c.assumptions += ['the stage semantics are the library functions (each covered by its own property); the specification contributes '
                       'order, arguments, separators, loops and exit status',
                       'F17 (--reify-edges with --reify-attributes is not a fixed point on inverted attributes) is an open known finding',
